@@ -11,7 +11,7 @@ CASES_HEADER = "Require Import Nib.C19.Sites Nib.C19.Model Nib.C19.Spec Nib.C19.
 CASE_TYPE = "case"
 MISMATCH_FN = "mismatch current_sites"
 VIOLATES_FN = "violates"
-RULE = ("cases = 1-3 consecutive blocks of 1-7 ops (eth tx with 0-4 logs / two-message eth tx / revert / ante failure / msg-server failure, "
+RULE = ("cases = 1-3 consecutive blocks of 1-7 ops (eth tx with 0-4 logs, optionally after an inner call frame that emitted 1-3 logs and reverted / two-message eth tx / revert / ante failure / msg-server failure, "
         "MsgCreateFunToken, MsgConvertCoinToEvm for coin-born and ERC20-born FunTokens, FunToken.sendToBank precompile calls whose logs include mirrored ABCI events) delivered through BeginBlock/DeliverTx/EndBlock/Commit; "
         "non-trivial = some block holds a FunToken op that emitted logs AND an Ethereum tx with logs after another "
         "log-emitting op (the shape in which indices can collide); distinct = distinct input")
@@ -98,7 +98,7 @@ def classify(rec):
     ks = ["blocks=%d" % len(rec["input"])]
     for ops, bo in zip(rec["input"], rec["obs"]):
         for op, ob in zip(ops, bo["ops"]):
-            ks.append("op:" + op["kind"] + ("/revert" if op.get("revert") else "") + ("/fail-" + op["fail"] if op.get("fail") else ""))
+            ks.append("op:" + op["kind"] + ("/inner-revert" if op.get("inner") else "") + ("/revert" if op.get("revert") else "") + ("/fail-" + op["fail"] if op.get("fail") else ""))
             ks.append("code:%s" % ("ok" if ob["code"] == 0 else "rejected"))
             ks.append("logs_per_op=%d" % min(len(ob["logs"]), 5))
     return ks
